@@ -191,12 +191,9 @@ RecRoots(S) == {PathStrOfTree(S.derive_calls[i].path) : i \in {j \in DOMAIN S.de
 
 RootSegs(S, r) == LET i == CHOOSE j \in DOMAIN S.derive_calls : S.derive_calls[j].op \in {"for_d", "for_a"} /\ PathStrOfTree(S.derive_calls[j].path) = r
                   IN S.derive_calls[i].path.segs
-\* flatten_recursive_derives: the first registry id carrying a root path is flattened from
-FirstIdOfPathStr(reg, p) ==
-  LET ids == {i \in Ids(reg) : Len(Ty(reg, i).path) > 0 /\ PathStr(Ty(reg, i).path) = p} IN
-  IF ids = {} THEN -1 ELSE CHOOSE i \in ids : \A j \in ids : i <= j
-RootsReaching(reg, S, id) ==
-  {r \in RecRoots(S) : FirstIdOfPathStr(reg, r) # -1 /\ id \in CollectTypeIds(reg, FirstIdOfPathStr(reg, r))}
+\* flatten_recursive_derives: every registry id carrying a root path is flattened from
+IdsOfPathStr(reg, p) == {i \in Ids(reg) : Len(Ty(reg, i).path) > 0 /\ PathStr(Ty(reg, i).path) = p}
+RootsReaching(reg, S, id) == {r \in RecRoots(S) : \E ir \in IdsOfPathStr(reg, r) : id \in CollectTypeIds(reg, ir)}
 \* derives merged per path: every id of the path contributes what reached it
 FlatDerives(reg, S, path) ==
   GlobalDerives(S) \cup SpecificDerives(S, PathStr(path))
